@@ -1,1 +1,2 @@
 import Drv.Common
+import Drv.Args
